@@ -125,6 +125,8 @@ type Chain struct {
 	poolBase string
 	fail     failFn
 
+	Focus         string // "" | "validators": generator bias
+	PoolKeys      int    // how many universe keys candidate configurations may contain (default nKeyperKeys)
 	CheckReplicas bool // C09 oracle
 	CheckModel    bool // C11 oracle
 	CheckVals     bool // C12 oracle
@@ -174,6 +176,19 @@ func (c *Chain) compareStates(where string) {
 }
 
 type protoMarshaler interface{ Marshal() ([]byte, error) }
+
+// Tendermint documents Log and Info as "may be non-deterministic" (they are
+// not part of the results hash); the application puts Go stack traces there.
+// Responses are compared without them.
+func normDeliver(r abcitypes.ResponseDeliverTx) *abcitypes.ResponseDeliverTx {
+	r.Log, r.Info = "", ""
+	return &r
+}
+
+func normCheck(r abcitypes.ResponseCheckTx) *abcitypes.ResponseCheckTx {
+	r.Log, r.Info = "", ""
+	return &r
+}
 
 func mustMarshal(m protoMarshaler) []byte {
 	b, err := m.Marshal()
@@ -270,7 +285,7 @@ func (c *Chain) DeliverTx(tx []byte, tag string) abcitypes.ResponseDeliverTx {
 	for i, a := range c.Reps {
 		var resp abcitypes.ResponseDeliverTx
 		c.guard("DeliverTx("+tag+")", func() { resp = a.DeliverTx(abcitypes.RequestDeliverTx{Tx: tx}) })
-		b := mustMarshal(&resp)
+		b := mustMarshal(normDeliver(resp))
 		if i == 0 {
 			first, resp0 = b, resp
 		} else if c.CheckReplicas && string(b) != string(first) {
@@ -310,7 +325,7 @@ func (c *Chain) CheckTx(tx []byte, tag string) abcitypes.ResponseCheckTx {
 	for i, a := range c.Reps {
 		var resp abcitypes.ResponseCheckTx
 		c.guard("CheckTx("+tag+")", func() { resp = a.CheckTx(abcitypes.RequestCheckTx{Tx: tx}) })
-		b := mustMarshal(&resp)
+		b := mustMarshal(normCheck(resp))
 		if i == 0 {
 			first, resp0 = b, resp
 		} else if c.CheckReplicas && string(b) != string(first) {
@@ -434,7 +449,7 @@ func (c *Chain) nextNonce() uint64 { c.nonce++; return c.nonce }
 
 func (c *Chain) memberIdx() []int {
 	var res []int
-	for i := 0; i < nKeyperKeys; i++ {
+	for i := 0; i < len(uni.Addrs); i++ {
 		if c.M.IsMemberAny(uni.Addrs[i]) {
 			res = append(res, i)
 		}
@@ -453,8 +468,16 @@ func (c *Chain) lastIdx() []int {
 }
 
 func genSubset(t *rapid.T, label string, minN int) []int {
-	perm := rapid.Permutation([]int{0, 1, 2, 3, 4}).Draw(t, label+"perm")
-	n := rapid.IntRange(minN, nKeyperKeys).Draw(t, label+"n")
+	return genSubsetOf(t, label, minN, nKeyperKeys)
+}
+
+func genSubsetOf(t *rapid.T, label string, minN, universe int) []int {
+	all := make([]int, universe)
+	for i := range all {
+		all[i] = i
+	}
+	perm := rapid.Permutation(all).Draw(t, label+"perm")
+	n := rapid.IntRange(minN, min(universe, 6)).Draw(t, label+"n")
 	return perm[:n]
 }
 
@@ -469,7 +492,11 @@ func (c *Chain) refreshPool(t *rapid.T) {
 	c.pool = nil
 	k := rapid.IntRange(1, 3).Draw(t, "poolSize")
 	for i := 0; i < k; i++ {
-		ks := genSubset(t, "cfgk", 1)
+		pk := c.PoolKeys
+		if pk == 0 {
+			pk = nKeyperKeys
+		}
+		ks := genSubsetOf(t, "cfgk", 1, pk)
 		var addrs []common.Address
 		for _, j := range ks {
 			addrs = append(addrs, uni.Addrs[j])
@@ -540,7 +567,13 @@ func (c *Chain) genMessage(t *rapid.T, sender int) (*shmsg.Message, string) {
 		"cfg", "cfg", "cfg", "cfg", "cfg", "seen", "seen", "seen", "checkin", "checkin", "checkin",
 		"result", "result", "result", "result", "eval", "commit", "acc", "apol", "empty",
 	}).Draw(t, "kind")
-	if d := c.M.DKGs[c.M.EonCounter]; d != nil && len(d.Votes) < len(d.Cfg.Keypers) && 2*int(d.Cfg.Threshold) <= len(d.Cfg.Keypers) &&
+	if c.Focus == "validators" {
+		kind = rapid.SampledFrom([]string{
+			"cfg", "cfg", "cfg", "cfg", "seen", "seen", "seen", "seen", "seen", "checkin", "checkin", "checkin", "checkin", "checkin", "checkin",
+			"result", "commit", "empty",
+		}).Draw(t, "kindV")
+	}
+	if d := c.M.DKGs[c.M.EonCounter]; c.Focus == "" && d != nil && len(d.Votes) < len(d.Cfg.Keypers) && 2*int(d.Cfg.Threshold) <= len(d.Cfg.Keypers) &&
 		rapid.IntRange(0, 2).Draw(t, "pushResult") == 0 {
 		kind = "result" // an open tally that can still split: keep voting
 	}
@@ -745,6 +778,26 @@ func (c *Chain) genTx(t *rapid.T) ([]byte, string) {
 			if len(cand) > 0 {
 				s = rapid.SampledFrom(cand).Draw(t, "voter")
 			}
+		}
+	}
+	if c.Focus == "validators" && rapid.IntRange(0, 3).Draw(t, "aimV") > 0 {
+		var cand []int
+		if msg.GetCheckIn() != nil {
+			for i := range uni.Addrs {
+				if _, in := c.M.Identities[uni.Addrs[i]]; !in && c.M.IsMemberAny(uni.Addrs[i]) {
+					cand = append(cand, i)
+				}
+			}
+		}
+		if bs := msg.GetBlockSeen(); bs != nil {
+			for i := range uni.Addrs {
+				if b, ok := c.M.BlocksSeen[uni.Addrs[i]]; (!ok || b < bs.BlockNumber) && c.M.IsMemberAny(uni.Addrs[i]) {
+					cand = append(cand, i)
+				}
+			}
+		}
+		if len(cand) > 0 {
+			s = rapid.SampledFrom(cand).Draw(t, "aimedSender")
 		}
 	}
 	chain := apphist.ChainID
